@@ -154,7 +154,7 @@ func negativeRejected(c *an.Ctx, fn *ssa.Function, at ssa.Instruction) bool {
 		}
 		// the other edge returns an error status
 		other := an.CondEdge{If: e.If, Branch: !e.Branch}
-		for _, r := range an.Returns(fn) {
+		for _, r := range an.Returns(e.If.Parent()) { // the test may sit in a helper the handler delegates to
 			if an.EdgeGuards(other, r) {
 				if cd, isSt := statusCodeOf(c, r.Results[len(r.Results)-1]); isSt && cd == an.CodeInvalidArgument {
 					return true
@@ -424,7 +424,7 @@ func r15handler(c *an.Ctx, h pagingHandler) {
 					predB := ph.Block().Preds[i]
 					for _, ed := range an.GuardingEdges(predB.Instrs[len(predB.Instrs)-1]) {
 						// the end is reached: len(listing) <= next+size, in any spelling
-						if lo, hi, _, isOrd := an.OrderFact(ed); isOrd && sum != nil && stripIntConv(hi) == ssa.Value(sum) && isLenListing(lo) {
+						if lo, hi, _, isOrd := an.OrderFact(ed); isOrd && sum != nil && an.SameExpr(hi, sum) && isLenListing(lo) {
 							okClear = true
 						}
 					}
@@ -432,6 +432,40 @@ func r15handler(c *an.Ctx, h pagingHandler) {
 			}
 		}
 		// and its result is the response's next_page_token
+	}
+	// or: where the end is reached the handler returns its response without ever giving it a token
+	if !okClear && sum != nil {
+		var tokenStores []ssa.Instruction
+		an.Instrs(fn, func(in ssa.Instruction) {
+			if st, ok := in.(*ssa.Store); ok {
+				if _, _, f, isF := an.FieldOf(st.Addr); isF && f == "NextPageToken" {
+					tokenStores = append(tokenStores, st)
+				}
+			}
+		})
+		for _, r := range an.Returns(fn) {
+			if len(r.Results) != 2 || !an.IsNilConst(r.Results[1]) {
+				continue
+			}
+			atEnd := false
+			for _, ed := range an.GuardingEdges(r) {
+				if lo, hi, _, isOrd := an.OrderFact(ed); isOrd && an.SameExpr(hi, sum) && isLenListing(lo) {
+					atEnd = true
+				}
+			}
+			if !atEnd {
+				continue
+			}
+			untouched := len(tokenStores) > 0
+			for _, st := range tokenStores {
+				if an.Reaches(st, r) {
+					untouched = false
+				}
+			}
+			if untouched {
+				okClear = true
+			}
+		}
 	}
 	c.Check(okTokVal, "R15.4", name+"|next token is the key of the last item of the page", fn.Pos(), "", "the token handed out is not listing[next+size-1]."+keyField+" (the key field the search uses): the next page does not resume after this one")
 	c.Check(okClear, "R15.5", name+"|token cleared when the page reaches the end", fn.Pos(), "", "when the page reaches the end of the listing the token is not cleared: the client never sees an empty next_page_token")
@@ -828,7 +862,21 @@ func r15waste(c *an.Ctx) {
 		}
 		return false
 	}
-	atois := an.CallsTo(h, "strconv.Atoi")
+	// the function that parses the token: the handler, or a helper it delegates to (looked through)
+	isAtoi := func(in ssa.Instruction) bool { return an.IsCallTo(in, "strconv.Atoi") }
+	tb := an.BodyWith(h, isAtoi)
+	if tb == nil {
+		tb = h
+	}
+	var tbSite *ssa.Call // the handler's call of that helper
+	if tb != h {
+		an.Instrs(h, func(in ssa.Instruction) {
+			if cl, ok := in.(*ssa.Call); ok && an.TransparentCallee(cl) == tb {
+				tbSite = cl
+			}
+		})
+	}
+	atois := an.CallsTo(tb, "strconv.Atoi")
 	if len(atois) > 0 {
 		handlerBound = true
 		for _, a := range atois {
@@ -842,7 +890,15 @@ func r15waste(c *an.Ctx) {
 			if !flows {
 				continue
 			}
-			t, _ := an.PathQuery{Target: func(x ssa.Instruction) bool { return x == ssa.Instruction(call) }, Avoid: cmpWithCount}.From(h, a)
+			target := func(x ssa.Instruction) bool { return x == ssa.Instruction(call) }
+			if tb != h {
+				// in a helper: the parsed value leaves through a successful return
+				target = func(x ssa.Instruction) bool {
+					r, isRet := x.(*ssa.Return)
+					return isRet && len(r.Results) > 0 && an.IsNilConst(r.Results[len(r.Results)-1])
+				}
+			}
+			t, _ := an.PathQuery{Target: target, Avoid: cmpWithCount}.From(tb, a)
 			if t != nil {
 				handlerBound = false
 			}
@@ -851,18 +907,25 @@ func r15waste(c *an.Ctx) {
 	c.Check((idxOK && n > 0) || handlerBound, "R15.3", mn+"|the token-controlled index is bounded by the number of records", m.Pos(), "",
 		"allWasteRecords[start-1] is indexed with a start taken from the client's page token without comparing it with the number of records: a token beyond the end panics (index out of range) instead of yielding an error status")
 	// a malformed token is answered with an error
-	okErr := false
-	for _, cl := range an.CallsTo(h, "strconv.Atoi") {
-		for _, u := range an.Referrers(cl.(*ssa.Call)) {
-			if ex, isEx := u.(*ssa.Extract); isEx && ex.Index == 1 {
+	errHandedBack := func(f *ssa.Function, cl *ssa.Call) bool {
+		errIdx := cl.Call.Signature().Results().Len() - 1
+		for _, u := range an.Referrers(cl) {
+			if ex, isEx := u.(*ssa.Extract); isEx && ex.Index == errIdx {
 				for _, iff := range flowsToIfNil(ex) {
-					for _, r := range an.Returns(h) {
-						if an.EdgeGuards(an.CondEdge{If: iff, Branch: true}, r) && !provablyNilAt(r.Results[1], r) {
-							okErr = true
+					for _, r := range an.Returns(f) {
+						if an.EdgeGuards(an.CondEdge{If: iff, Branch: true}, r) && !provablyNilAt(r.Results[len(r.Results)-1], r) {
+							return true
 						}
 					}
 				}
 			}
+		}
+		return false
+	}
+	okErr := false
+	for _, cl := range atois {
+		if errHandedBack(tb, cl.(*ssa.Call)) && (tb == h || (tbSite != nil && errHandedBack(h, tbSite))) {
+			okErr = true
 		}
 	}
 	c.Check(okErr, "R15.2", hn+"|a malformed token is answered with an error", h.Pos(), "", "a page token that is not a number is not rejected")
